@@ -2,6 +2,8 @@
    Statements only; the proofs are in LiteralProofs.v, ParserProofs.v, CdcnProofs.v, Grammar.v. *)
 From Coq Require Import String.
 From Verif Require Import Base Params Value Lexer Literals Parser LexerProofs ParserProofs CdcnProofs LiteralProofs ParseRun Grammar Complete LexBridge LexBridge2 LexBridge3 StripInv LexRender.
+From Verif Require GrammarLit GrammarTextProofs ErrorTokens ParserPrefix ParserPrefixStrip GrammarReject.
+From Verif Require Import GrammarText.
 Close Scope string_scope.
 Open Scope Z_scope.
 
@@ -215,6 +217,175 @@ Example C11_ex_float_through_oracle :
     (zs "[1.5e+3](Array)") = PValue (VSeq KArray [VFloat 64 4654311885213007872]).
 Proof. vm_compute. reflexivity. Qed.
 
+
+(* ====================================================================================== *)
+(* SOURCE TEXTS of the published grammar (GrammarText.v): the property's own quantifier    *)
+(* ====================================================================================== *)
+(* [gtree] = a derivation tree of Syntax.cdsn's rules (Collection, Values / Associations inline,
+   multi-line and empty, Association, all seven contexts) with, per literal, one of ALL its forms
+   (GrammarText.glit) and with the layout the scanner allows (runs of spaces after "," / ":" / EOL
+   and inside "[ ]"); [gtext t n] = its source text followed by n newlines; [gdenote fparse crank t]
+   = the value it denotes: every literal through [lit_value] (standard Go semantics, stated per
+   form), an association list merged by key (first position, last value), the collection of the
+   stated type through the constructor (Parser.build: source order; a Set through the collator). *)
+
+(* literal_meaning, per FORM: what parseIntrinsic's conversion makes of the text of a well-formed
+   literal is the value lit_value states — 0; sign? ordinal as the signed positional value inside
+   int64; 0x... as the positional value inside uint64; floats and both parts of a complex literal
+   through ParseFloat, the imaginary part negated for a "-" separator; a rune / string piece: the
+   character, the escape's control character, the byte of \xhh, the code point of \uhhhh /
+   \Uhhhhhhhh when it is a valid rune (UTF-8 encoded in a string); None exactly where Go has no
+   value (out of range, \ud800, \U00110000, an escaped double quote in a rune, an escaped apostrophe in a
+   string, an error of ParseFloat) *)
+Theorem C11_literal_meaning :
+  forall (fparse : list Z -> option Z) (l : glit), wf_lit l = true ->
+    literal_value fparse (lit_type l) (lit_text l) = lit_value fparse l.
+Proof. exact GrammarLit.lit_meaning. Qed.
+
+(* every well-formed literal text, followed by a separator, is one token of its class *)
+Theorem C11_literal_scanned :
+  forall (l : glit) (rest : list rtok), wf_lit l = true -> scannable rest -> sep_start (render_toks rest) ->
+    scannable (lit_tok l :: rest).
+Proof. exact GrammarLit.lit_scan. Qed.
+
+Theorem C11_text_scannable :
+  forall (t : gtree) (n : nat), wf_gtree t = true -> scannable (gtokens t n).
+Proof. exact GrammarTextProofs.gtokens_scannable. Qed.
+
+(* TEXT COMPLETENESS *)
+Theorem C11_text_complete :
+  forall (fparse : list Z -> option Z) (crank : val -> val -> option comparison) (t : gtree) (n : nat) (v : val),
+    wf_gtree t = true -> gdenote fparse crank t = Some v ->
+    parse_source fparse crank (gtext t n) = PValue v.
+Proof. exact GrammarTextProofs.text_complete. Qed.
+
+(* a literal WITHOUT an exact value is rejected with the diagnostic for its token.
+   GENERAL POSITION (GrammarReject.v, ParserPrefix.v): [bad_at fparse crank l t pre] = the literal l occurs in
+   the tree t — as an item of an inline or multi-line list, first or later, as a key or as the value of
+   an association, at any nesting —, pre = the tokens of t in front of that occurrence, and everything
+   in front of it has a value (keys and earlier items at every level: gdenote of each is Some).  Then the
+   outcome is the diagnostic for THAT token, at the line and position the scanner reaches after pre —
+   never a value, never a diagnostic for an earlier or a later token.  Behind it:
+   ParserPrefix.prefix_bad_literal, the parser on a proper prefix of a derivation (inductive viable
+   prefixes vstop / astop / cstop, one constructor per position of the grammar at which the item in
+   progress stands, the items in front whole derivations) followed by a token parse_intrinsic rejects. *)
+Theorem C11_prefix_bad_literal :
+  forall (fparse : list Z -> option Z) (crank : val -> val -> option comparison) (b : token),
+    ParserPrefix.badlit fparse b -> forall ts r : list token, ParserPrefix.lstopc fparse crank b ts ->
+    parse_tokens fparse crank (ts ++ r) = PSyntax b.
+Proof. exact ParserPrefix.prefix_bad_literal. Qed.
+
+Theorem C11_inexact_literal_rejected_anywhere :
+  forall (fparse : list Z -> option Z) (crank : val -> val -> option comparison) (t : gtree) (l : glit)
+         (pre : list rtok) (n : nat),
+    wf_gtree t = true -> GrammarReject.bad_at fparse crank l t pre -> wf_lit l = true -> lit_value fparse l = None ->
+    parse_source fparse crank (gtext t n) =
+    PSyntax (mkTok (lit_type l) (lit_text l) (fst (snd (ErrorTokens.place_pre pre 1 1))) (snd (snd (ErrorTokens.place_pre pre 1 1)))).
+Proof. exact GrammarReject.inexact_literal_rejected_anywhere. Qed.
+
+(* the two special cases proved first: the only item of a list in any context, the key of the only association *)
+Theorem C11_inexact_literal_rejected :
+  forall (fparse : list Z -> option Z) (crank : val -> val -> option comparison) (l : glit) (c : gctx) (n : nat),
+    wf_lit l = true -> lit_value fparse l = None ->
+    parse_source fparse crank (gtext (GInline (GLit l) [] c) n) = PSyntax (mkTok (lit_type l) (lit_text l) 1 2).
+Proof. exact GrammarTextProofs.inexact_value_rejected. Qed.
+Theorem C11_inexact_key_rejected :
+  forall (fparse : list Z -> option Z) (crank : val -> val -> option comparison) (l : glit) (g : nat) (v : gtree) (c : gctx) (n : nat),
+    wf_lit l = true -> lit_value fparse l = None -> wf v = true -> is_assoc v = false ->
+    parse_source fparse crank (gtext (GInline (GAssoc l g v) [] c) n) = PSyntax (mkTok (lit_type l) (lit_text l) 1 2).
+Proof. exact GrammarTextProofs.inexact_key_rejected. Qed.
+
+(* a multi-line nested text with every literal form; 0.5, -12250.0, 0.01, 1.0, 2.0 through the oracle *)
+Definition gx_fparse (t : list Z) : option Z :=
+  if list_eqb Z.eqb t (zs "0.5") then Some 4602678819172646912
+  else if list_eqb Z.eqb t (zs "-12.25e+3") then Some 13891332159903367168
+  else if list_eqb Z.eqb t (zs "+1.0E-2") then Some 4576918229304087675
+  else if list_eqb Z.eqb t (zs "1.0") then Some 4607182418800017408
+  else if list_eqb Z.eqb t (zs "-2.0") then Some 13835058055282163712 else None.
+Definition gx_tree : gtree :=
+  GMulti
+    [(4%nat, GAssoc (GStr [PChar 107; PEsc 34; PHex 120 (zs "ff"); PHex 117 (zs "00e9"); PChar 233]) 1
+               (GInline (GLit GZero) [(1%nat, GLit (GInt GNoSign (zs "17"))); (1%nat, GLit (GInt GPlus (zs "5")));
+                                      (0%nat, GLit (GInt GMinus (zs "5"))); (1%nat, GLit (GHex (zs "ff0")))] CList));
+     (4%nat, GAssoc (GRune (PChar 97)) 1
+               (GMulti [(8%nat, GLit (GFloat (mkGF GNoSign (zs "0") (zs "5") None)));
+                        (8%nat, GLit (GFloat (mkGF GMinus (zs "12") (zs "25") (Some (101, false, zs "3")))));
+                        (8%nat, GLit (GFloat (mkGF GPlus (zs "1") (zs "0") (Some (69, true, zs "2")))));
+                        (8%nat, GLit (GComplex (mkGF GNoSign (zs "1") (zs "0") None) true (mkGF GMinus (zs "2") (zs "0") None)))]
+                       4 CArray));
+     (4%nat, GAssoc (GInt GMinus (zs "1")) 0
+               (GInline (GLit (GRune (PEsc 110))) [(1%nat, GLit (GRune (PEsc 39))); (1%nat, GLit (GRune (PHex 120 (zs "41"))));
+                                                   (1%nat, GLit (GRune (PHex 117 (zs "00e9")))); (1%nat, GLit (GRune (PHex 85 (zs "0001f600"))));
+                                                   (1%nat, GLit (GRune (PChar 233)))] CStack));
+     (4%nat, GAssoc (GBool true) 1 (GInline (GLit GNil) [(1%nat, GLit (GBool false)); (1%nat, GEmpty false 1 CQueue); (1%nat, GEmpty true 0 CMap)] CList));
+     (4%nat, GAssoc (GHex (zs "0")) 2 (GInline (GAssoc (GStr []) 1 (GLit (GInt GNoSign (zs "3")))) [(1%nat, GAssoc (GStr []) 1 (GLit (GInt GNoSign (zs "4"))))] CMap));
+     (4%nat, GAssoc GNil 1 (GInline (GLit (GInt GNoSign (zs "2"))) [(0%nat, GLit (GInt GNoSign (zs "1"))); (0%nat, GLit (GInt GNoSign (zs "2")))] CSet))]
+    0 CCatalog.
+Example C11_ex_text_hypotheses :
+  wf_gtree gx_tree = true /\ exact_literals gx_fparse gx_tree = true /\
+  gdenote gx_fparse (default_crank []) gx_tree =
+  Some (VMapping MCatalog
+          [VStr [107; 34; 255; 195; 169; 195; 169]; VRune 97; VInt 64 (-1); VBool true; VUint 64 0; VNil]
+          [VSeq KList [VInt 64 0; VInt 64 17; VInt 64 5; VInt 64 (-5); VUint 64 4080];
+           VSeq KArray [VFloat 64 4602678819172646912; VFloat 64 13891332159903367168; VFloat 64 4576918229304087675;
+                        VComplex 128 4607182418800017408 4611686018427387904 0 0];
+           VSeq KStack [VRune 10; VRune 39; VRune 65; VRune 233; VRune 128512; VRune 233];
+           VSeq KList [VNil; VBool false; VSeq KQueue []; VMapping MMap [] []];
+           VMapping MMap [VStr []] [VInt 64 4];
+           VSeq KSet [VInt 64 1; VInt 64 2]]).
+Proof. vm_compute. repeat split; reflexivity. Qed.
+(* its text, and the same value by running the scanner / parser models on it *)
+Example C11_ex_text :
+  gtext gx_tree 1 = zs "[
+    ""k\""\xff\u00e9" ++ [233] ++ zs """: [0, 17, +5,-5, 0xff0](List)
+    'a': [
+        0.5
+        -12.25e+3
+        +1.0E-2
+        (1.0--2.0i)
+    ](Array)
+    -1:['\n', '\'', '\x41', '\u00e9', '\U0001f600', '" ++ [233] ++ zs "'](Stack)
+    true: [nil, false, [ ](Queue), [:](Map)](List)
+    0x0:  ["""": 3, """": 4](Map)
+    nil: [2,1,2](Set)
+](Catalog)
+" /\
+  parse_source gx_fparse (default_crank []) (gtext gx_tree 1) = option_rect (fun _ => outcome) PValue POutOfFuel (gdenote gx_fparse (default_crank []) gx_tree).
+Proof. vm_compute. split; reflexivity. Qed.
+(* inexact literals of every kind, as the only item of a list: rejected, located *)
+Example C11_ex_inexact_literals :
+  lit_value gx_fparse (GInt GNoSign (zs "9223372036854775808")) = None /\
+  lit_value gx_fparse (GInt GMinus (zs "9223372036854775808")) = Some (VInt 64 (-9223372036854775808)) /\
+  lit_value gx_fparse (GHex (zs "10000000000000000")) = None /\
+  lit_value gx_fparse (GFloat (mkGF GNoSign (zs "1") (zs "0") (Some (101, false, zs "999")))) = None /\
+  lit_value gx_fparse (GRune (PHex 117 (zs "d800"))) = None /\ lit_value gx_fparse (GRune (PHex 85 (zs "00110000"))) = None /\
+  lit_value gx_fparse (GRune (PEsc 34)) = None /\ lit_value gx_fparse (GStr [PEsc 39]) = None /\
+  lit_value gx_fparse (GStr [PHex 117 (zs "d800")]) = None /\
+  wf_lit (GRune (PHex 117 (zs "d800"))) = true /\
+  parse_source gx_fparse (default_crank []) (gtext (GInline (GLit (GRune (PHex 117 (zs "d800")))) [] CSet) 0)
+  = PSyntax (mkTok TRune (zs "'\ud800'") 1 2).
+Proof. vm_compute. repeat split; reflexivity. Qed.
+
+(* an inexact literal deep inside: the second item of a List that is the value of the second entry of a
+   multi-line Catalog — bad_at holds, and the diagnostic (line 3, position 14) by running both models *)
+Definition gx_bad : glit := GInt GNoSign (zs "99999999999999999999").
+Definition gx_bad_tree : gtree :=
+  GMulti [(4%nat, GAssoc (GStr [PChar 97]) 1 (GLit GNil));
+          (4%nat, GAssoc (GRune (PChar 98)) 1 (GInline (GLit GZero) [(1%nat, GLit gx_bad); (1%nat, GLit (GBool true))] CList))] 0 CCatalog.
+Example C11_ex_inexact_anywhere :
+  (exists pre, GrammarReject.bad_at (fun _ => None) (default_crank []) gx_bad gx_bad_tree pre) /\
+  wf_gtree gx_bad_tree = true /\ lit_value (fun _ => None) gx_bad = None /\
+  parse_source (fun _ => None) (default_crank []) (gtext gx_bad_tree 1) = PSyntax (mkTok TInteger (zs "99999999999999999999") 3 14).
+Proof.
+  split.
+  - eexists. unfold gx_bad_tree.
+    eapply GrammarReject.ba_multi with (before := [(4%nat, GAssoc (GStr [PChar 97]) 1 (GLit GNil))]) (after := []); [vm_compute; reflexivity|].
+    eapply GrammarReject.ba_val; [vm_compute; reflexivity|].
+    eapply GrammarReject.ba_later with (before := []) (after := [(1%nat, GLit (GBool true))]); [vm_compute; reflexivity|reflexivity|].
+    apply GrammarReject.ba_lit.
+  - vm_compute. repeat split; reflexivity.
+Qed.
+
 Print Assumptions C11_parse_depends_on_tokens.
 Print Assumptions C11_calls_independent.
 Print Assumptions C11_literal_exact.
@@ -253,3 +424,11 @@ Print Assumptions C11_parse_render.
 Print Assumptions C11_dcoll_strip.
 Print Assumptions C11_parse_render_strip.
 Print Assumptions C11_first_words.
+Print Assumptions C11_literal_meaning.
+Print Assumptions C11_literal_scanned.
+Print Assumptions C11_text_scannable.
+Print Assumptions C11_text_complete.
+Print Assumptions C11_inexact_literal_rejected.
+Print Assumptions C11_inexact_key_rejected.
+Print Assumptions C11_prefix_bad_literal.
+Print Assumptions C11_inexact_literal_rejected_anywhere.
